@@ -59,7 +59,9 @@ Definition afm_value (v : aval) : result avalue :=
   match v with
   | VInt z => Ok (AvInt (z_to_string z))
   | VStr s => Ok (AvText s)
-  | VFloat r => Ok (AvDouble r r)          (* str(value) of a float is its repr *)
+  | VFloat r =>                             (* fix: the positional spelling (the grammar's DOUBLE has no exponent);
+                                               infinities and NaN have no AFM spelling *)
+      match py_positional r with Some t => Ok (AvDouble t r) | None => Err FlamaException end
   | _ => Err OtherExn
   end.
 
@@ -258,8 +260,12 @@ Definition afm_value_aval (v : avalue) : result aval :=
 
 Fixpoint afm_read_expr (prefix : string) (e : aexpr) : result node :=
   match e with
-  | EVar t => Ok (term (prefix ++ t)%string)
-  | ENum t => Ok (term t)
+  (* fix: inside a block  F { ... }  only a bare attribute name (a LOWERCASE token) is relative to F; feature names and
+     qualified attributes (they start with a capital: WORD tokens) are not prefixed *)
+  | EVar t => Ok (term (if match t with String c _ => is_lower c | EmptyString => false end then prefix ++ t else t)%string)
+  (* fix: a number is an operand of arithmetic / relational expressions only, which the reader does not support: it used
+     to become a term that get_features reports as a feature *)
+  | ENum t => Err FlamaException
   | EBin op a b =>
       match afm_operator_of_keyword op with
       | None => Err FlamaException
